@@ -42,7 +42,6 @@ def check(ctx):
         "Sequence": "Ok(Value::unnamed_composite([Transformer::resolve(%s,A.type_param.id)?,Transformer::resolve(%s,A.type_param.id)?]))" % (TR, TR),
         "Array": "Ok(Value::unnamed_composite(Iterator::collect(Iterator::map(ops::Range{end:A.len,start:'0'},|1|{Transformer::resolve(%s,A.type_param.id)}))?))" % TR,
         "Tuple": "Ok(scale_value::Value{context:(),value:ValueDef::Composite(scale_value::fields_type_example(Iterator::map(A.fields,|1|{(v1::None,C1_0.id)}),%s)?)})" % TR,
-        "Primitive": "Ok(scale_value::primitive_type_def_example(A,%s))" % RNG,
         "Compact": "Transformer::resolve(%s,A.type_param.id)" % TR,
     }
     why = {
@@ -51,7 +50,6 @@ def check(ctx):
         "Sequence": "sequence -> unnamed composite of examples of the element type",
         "Array": "array -> exactly array.len examples of the element type",
         "Tuple": "tuple -> unnamed composite over the members in order",
-        "Primitive": "primitive -> width table",
         "Compact": "compact -> example of the inner type",
     }
     for v, e in exp.items():
@@ -69,21 +67,28 @@ def check(ctx):
                    "bit sequence -> a BitSequence value of random bits (children not visited: the value does not depend on store/order)", "bit-sequence arm: " + t[:200])
     sc = show(N.term(m["scrut"]))
     ctx.expect(sc == "%s.type_def" % TY, "C12.1", "dispatch", site(m), "dispatch on the type's own definition", "scrutinee " + sc)
-    # width table
-    pf = q.fn1(P, "scale_value::primitive_type_def_example", DR.D)
-    if pf is None:
-        ctx.bad("C12.2", "missing-anchor/primitive_type_def_example", "", "primitive example table not found")
-    else:
-        Np = Norm(pf)
-        pm = q.matches_on(pf["body"], lambda t: t == "scale_info::TypeDefPrimitive")
-        parms = arms_by_variant(pm[0]) if pm else {}
-        R = "P1"
+    # width table: the Primitive arm with the private table helper looked through is Ok(Value::primitive(match primitive { .. })) over the shared rng
+    parm = arms.get("Primitive")
+    pt = N.term(parm["body"], arm_syms(parm["pat"])) if parm is not None else None
+    table = None
+    if pt is not None and pt[0] == "call" and pt[1] == "Ok" and len(pt[2]) == 1 and pt[2][0][0] == "call" and pt[2][0][1] == "Value::primitive" \
+            and len(pt[2][0][2]) == 1 and pt[2][0][2][0][0] == "match" and show(pt[2][0][2][0][1]) == "A":
+        table = pt[2][0][2][0]
+    ctx.expect(table is not None, "C12.1", "arm/Primitive", site(parm) if parm is not None else site(m),
+               "primitive -> Value::primitive(<width table over the primitive kind>)", "primitive arm: " + (show(pt)[:200] if pt is not None else "missing"))
+    if table is not None:
+        parms = {}
+        for pat_, g_, body_ in table[2]:
+            if g_ is None:
+                for alt in pat_.split("|"):
+                    parms[alt.strip().rsplit("::", 1)[-1]] = body_
+        R = RNG
         for v in q.variants_of(P, "TypeDefPrimitive", "scale_info"):
-            arm = parms.get(v)
-            if arm is None:
-                ctx.bad("C12.2", "width/" + v, pf["sp"], "no explicit arm for TypeDefPrimitive::%s" % v)
+            body_ = parms.get(v)
+            if body_ is None:
+                ctx.bad("C12.2", "width/" + v, site(parm), "no explicit arm for TypeDefPrimitive::%s" % v)
                 continue
-            t = show(Np.term(arm["body"]))
+            t = show(body_)
             if v in DR.INTS:
                 ty = DR.INTS[v]
                 wide = "u128" if ty.startswith("u") else "i128"
@@ -99,14 +104,12 @@ def check(ctx):
                 e = ["Primitive::Bool(Rng::gen<bool>(%s))" % R]
                 w = "random bool"
             elif v == "Char":
-                e = ["Primitive::Char(Option::unwrap(SliceRandom::choose(%s,%s)))" % (ANY, R)]
+                e = ["Primitive::Char(SliceRandom::choose(%s,%s)@v1::Some.0)" % (ANY, R)]
                 w = "a char chosen from a literal array"
             else:
-                e = ["Primitive::String(Option::unwrap(SliceRandom::choose(%s,%s)))" % (ANY, R)]
+                e = ["Primitive::String(SliceRandom::choose(%s,%s)@v1::Some.0)" % (ANY, R)]
                 w = "a string chosen from a literal array"
-            expect_term(ctx, "C12.2", "width/" + v, arm, t, e, w)
-        wt = show(Np.term(pf["body"]))
-        ctx.expect(wt.startswith("Value::primitive(match(P0){"), "C12.2", "width/wrapper", pf["sp"], "result = Value::primitive(<table>)", wt[:80])
+            expect_term(ctx, "C12.2", "width/" + v, parm, t, e, w)
     # fields
     expect_fn(ctx, "C12.3", "fields", "scale_value::fields_type_example",
               "if(Iterator::all(P0,|1|{Option::is_none(C1_0.0)})){Ok(if(Iterator::all(P0,|1|{Option::is_some(C1_0.0)})){Composite::Unnamed(Vec::new())}else{"
